@@ -122,6 +122,7 @@ class Project:
         self.funcs: dict[str, Func] = {}
         self.classes: dict[str, ClassInfo] = {}
         self.func_of_node: dict[ast.AST, Func] = {}
+        self.class_of_node: dict[ast.AST, ClassInfo] = {}
         for rel in sorted(sources):
             self._add_module(rel, sources[rel])
         for m in self.modules.values():
@@ -218,11 +219,13 @@ class Project:
                     add_func(s, None, None)          # type: ignore[arg-type]
                 elif isinstance(s, ast.ClassDef):
                     m.defs[s.name] = s
-                    ci = ClassInfo(m, s.name, s, [U(b).split("[")[0] for b in s.bases])
-                    self.classes[s.name] = ci
+                    cname = s.name if s.name not in self.classes else f"{s.name}@{m.rel}"
+                    ci = ClassInfo(m, cname, s, [U(b).split("[")[0] for b in s.bases])
+                    self.classes[cname] = ci
+                    self.class_of_node[s] = ci
                     for b in s.body:
                         if isinstance(b, (ast.FunctionDef, ast.AsyncFunctionDef)):
-                            mf = add_func(b, s.name, None)   # type: ignore[arg-type]
+                            mf = add_func(b, cname, None)   # type: ignore[arg-type]
                             if mf.is_overload_stub:
                                 continue
                             if mf.is_setter:
@@ -324,7 +327,7 @@ class Project:
             if isinstance(d, (ast.FunctionDef, ast.AsyncFunctionDef)):
                 return self.func_of_node.get(d)
             if isinstance(d, ast.ClassDef):
-                return self.classes.get(d.name) if self.classes.get(d.name) and self.classes[d.name].node is d else _class_by_node(self, d)
+                return self.class_of_node.get(d)
             # alias assignment  X = Y  (e.g. js_default = default)
             val = d.value if isinstance(d, (ast.Assign, ast.AnnAssign)) else None
             if isinstance(val, (ast.Name, ast.Attribute)):
